@@ -29,11 +29,24 @@ def main():
     try:
         mod.run(rep, tier, a.seed)
         code = rep.finish()
-    except Exception:
+    except Exception as ex:
         tb = traceback.format_exc()
         sys.stderr.write(tb)
-        print("CHECKER-CRASH property=%s (not a violation)" % a.pid)
-        code = rep.finish(crash=tb)
+        # an exception raised INSIDE the library under test while a stand-in was calling it with inputs on which the unchanged tree
+        # answers: the library now fails where it must return a value - a violation (the input is in the traceback's frame, not recorded);
+        # an exception raised by the checker's own code is a checker crash and decides nothing
+        frames = traceback.extract_tb(ex.__traceback__)
+        repo = os.path.realpath(os.environ.get("VERIF_REPO", "/repo"))
+        if frames and os.path.realpath(frames[-1].filename).startswith(repo + os.sep):
+            last = frames[-1]
+            caller = next((f for f in reversed(frames) if os.path.realpath(f.filename).startswith(ROOT + os.sep)), None)
+            rep.violation("the library raised %r at %s:%d (%s) while the check %s was exercising it" % (ex, os.path.relpath(last.filename, repo), last.lineno, last.name,
+                                                                                                       ("at %s:%d" % (os.path.relpath(caller.filename, ROOT), caller.lineno)) if caller else ""),
+                          "exception:%s:%s" % (type(ex).__name__, last.name), {"traceback": tb[-3000:]}, failing_input_found=False)
+            code = rep.finish(crash=None)
+        else:
+            print("CHECKER-CRASH property=%s (not a violation)" % a.pid)
+            code = rep.finish(crash=tb)
     sys.exit(code)
 
 
